@@ -63,6 +63,14 @@ def opsCivil : List (String × Handler) := [
         | none => some "?unrepresentable"
         | some n => some (showOptSolar (fromJD n))
     | _ => none),
+  -- termjd <hex bits of each raw term JD> => the converted instants
+  ("termjd", fun args _ =>
+    let conv := args.map fun h => match parseHex? h with
+      | none => "?hex"
+      | some bits => match f64ToFix32 bits with
+        | none => "?unrepresentable"
+        | some n => showOptSolar (fromJD n)
+    some (" | ".intercalate conv)),
   -- tojd y m d h mi s => <hex bits>; accepted when |float − exact| ≤ 2^-27 day
   ("tojd", fun args obs => match args with
     | [y, m, d, h, mi, s] => match ints? [y, m, d, h, mi, s], parseHex? obs with
